@@ -38,6 +38,12 @@ def build_corpus(tier, rng):
             vs = [Variant("Red", "unit"), Variant("Teal", "unit", [], list(ms), groups=split), Variant("Blue", "unit", [], [ser("b")]),
                   Variant("Last%d" % j, "unit", [], list(reversed(ms)), groups=split)]
             items.append(("noise", Item("E", vs)))
+    # an enabled and a DISABLED variant whose snake names coincide: the disabled one owns no slot, so nothing clashes
+    for a, b in (("Kb", "KB"), ("Rev1", "Rev_1"), ("HttpServer", "HTTPServer"), ("r#type", "Type")):
+        for order in (0, 1):
+            en_v, dis_v = Variant(a, "unit"), Variant(b, "unit", [], [DISABLED])
+            vs = [Variant("First", "unit")] + ([en_v, dis_v] if order == 0 else [dis_v, en_v]) + [Variant("Last", "unit", [], [ser("l")])]
+            items.append(("snake-twin", Item("E", vs)))
     for fam, it in items:
         en = [i for i, v in enumerate(it.variants) if not v.has("disabled")]
         dis = [i for i, v in enumerate(it.variants) if v.has("disabled") and v.kind == "unit"]
